@@ -58,7 +58,9 @@ const childAddressSpaceLimit = 2 << 30
 // every call form of the recursion family need less than that.
 const childMaxStack = 128 << 20
 
-const childWallLimit = 25 * time.Minute // backstop for one child process
+// childWallLimit is a backstop only: the child stops by itself when the budget
+// it was given runs out, and its per-case watchdog handles hangs.
+const childWallLimit = thoroughBudget + 5*time.Minute
 
 func inChild() bool { return os.Getenv(childEnv) == "1" }
 
@@ -89,7 +91,12 @@ type rc struct {
 	out    *bufio.Writer // nil when running directly
 	skip   int
 	caseNo int
+	desc   string // rendered input of the case about to begin
 }
+
+// Describe sets the rendered input that accompanies the next Begin, so that a
+// death of the child can be reported with the readable case, not only its key.
+func (r *rc) Describe(s string) { r.desc = s }
 
 func q(s string) string { return strconv.Quote(s) }
 
@@ -134,9 +141,10 @@ func (r *rc) owned() bool {
 // Begin announces the case to the parent (and to the engine's watchdog).
 func (r *rc) Begin(key string) {
 	if r.out != nil {
-		r.send("B", strconv.Itoa(r.caseNo-1), q(key))
+		r.send("B", strconv.Itoa(r.caseNo-1), q(key), q(r.desc))
 		r.out.Flush()
 	}
+	r.desc = ""
 	r.Run.Begin(key)
 }
 
@@ -276,12 +284,16 @@ func superviseFamily(r *engine.Run) {
 		deaths++
 		class, site := fatalClass(log), fatalSite(log)
 		first := firstFatalLine(log)
-		devDump(st.lastKey, st.lastKey, "fatal", class, first, site, "")
+		devDump(st.lastKey, st.lastDesc, "fatal", class, first, site, "")
 		r.Eval(true)
 		r.Outcome("fatal:" + class + "@" + site)
 		aux := parseKeyAux(r.Family(), st.lastKey)
 		aux["phase"], aux["class"], aux["site"], aux["panic"] = "fatal", class, site, first
-		r.Mismatch(engine.Mismatch{Key: st.lastKey, Input: "case " + st.lastKey + " (family " + r.Family() + ")",
+		input := st.lastDesc
+		if input == "" {
+			input = "case " + st.lastKey + " (family " + r.Family() + ")"
+		}
+		r.Mismatch(engine.Mismatch{Key: st.lastKey, Input: input,
 			Expected: "the API call returns a value or an error",
 			Observed: "process died: " + class + " @ " + site + " (" + first + ")", Note: headTail(log, 5000), Aux: aux})
 		if r.ReplayKey != "" {
@@ -300,10 +312,11 @@ func superviseFamily(r *engine.Run) {
 }
 
 type streamState struct {
-	done    bool
-	inCase  bool
-	lastIdx int
-	lastKey string
+	done     bool
+	inCase   bool
+	lastIdx  int
+	lastKey  string
+	lastDesc string
 }
 
 func unq(s string) string {
@@ -323,9 +336,10 @@ func replayStream(r *engine.Run, rd io.Reader) streamState {
 		if len(line) > 0 && line[len(line)-1] == '\n' {
 			f := strings.Split(line[:len(line)-1], "\t")
 			switch {
-			case f[0] == "B" && len(f) == 3:
+			case f[0] == "B" && len(f) == 4:
 				st.lastIdx, _ = strconv.Atoi(f[1])
 				st.lastKey = unq(f[2])
+				st.lastDesc = unq(f[3])
 				st.inCase = true
 			case f[0] == "E":
 				st.inCase = false
